@@ -22,12 +22,25 @@ Props/C06; every value the builders build satisfies them (`Codec2.ofValues_spars
 that violate the invariant (e.g. a record whose unstored parts do not match its stored parts): they are not
 serializations of anything the library can hold.
 
-**Partial / by correspondence only** (see the end of the file):
- * `Serialize::serialize` into a failing `Write` sink: the model's `ser` is a pure function (the element list),
-   so "the error of the sink is returned" is not expressible for it; it is checked by the driver.  What is
-   proven is the consequence that matters for data integrity: whatever strict prefix of the bytes reached the
-   file, loading it is refused (the theorems below), and the buffered *writers*, whose sink is modelled,
-   never report success for an incomplete file.
+**`serialize` into a failing `Write` sink** (section "failed writes: `serialize` into a sink that fails").  The sink is
+modelled (Model/Sink): it accepts `b` more bytes and then fails every `write` with its error `e`; `write` may be
+short, `write_all` is the loop of the standard library over `write`; `serializeTo sink chunks` is a sequence of
+`write_all` calls, one per chunk, joined by `?`.  Proven, for **every codec, every value, every budget and every
+way of cutting the output bytes into consecutive chunks**: `b ≥ 8*size` → `Ok(())` and the sink holds exactly the
+bytes; `b < 8*size` → the result is the sink's error `e` (never `Ok`), and the sink holds exactly the first `b`
+bytes — a strict prefix, which every loader refuses with `eof` (`failed_serialization_leaves_unloadable_file`).
+**Assumed, not proven** (this is a model of the sink protocol, not of the call sequence of the Rust code): that each
+`Serialize::serialize` implementation *is* such a sequence — `write_all` calls (never a bare `write`) on
+consecutive pieces whose concatenation is the serialization, every call followed by `?`.  That is what the source
+does (header, body, padding, nested structures, each through `write_all` / a nested `serialize` and `?`), and it is
+observed by the correspondence check: the `ser sink <k> <name>` requests of the C14 generator
+(harness/src/gen_ser.rs) run `serialize` of raw / integer / bit / sparse / run-length vectors and wavelet matrices
+against the same budgeted sink (harness/src/exec_ser.rs `Sink`, transcribed as `Sink.write`) for every budget `k`
+(dense up to 80 bytes, then stepped, up to the size) and compare with the closed form `k < 8*size → err, else ok
+written=8*size` — which `serialize_into_failing_sink` proves to be the outcome of `serializeTo` for every
+chunking.  A seeded change replacing `write_all` by `write` in `Vec<V>::serialize_body` (m_C14) is reported there;
+in the model the two are told apart by `write_instead_of_write_all_is_told_apart`.
+**By correspondence only**: the behaviour of real files under `RLIMIT_FSIZE` / a full disk (kernel write failures).
 (Scope note: memory-mapped views exist, in the crate and in the model, only for the vector-like types of the
 "memory-mapped views" section below; there is none for the composite structures, so that clause has no composite
 instance.)
@@ -37,6 +50,7 @@ import Sds.Proofs.Supports
 import Sds.Proofs.Mapper
 import Sds.Proofs.Writer
 import Sds.Proofs.Codec2
+import Sds.Proofs.LoadWF
 import Sds.Generated.SerConsts
 
 namespace Sds.C14
@@ -377,19 +391,77 @@ theorem close_ok_means_file_complete (w : RawWriter) (ho : w.isOpen = true) (hI 
   have c := RawWriter.closeWith_ok w ho hI uh w' h
   ⟨c.isOpen, c.len_eq, c.body_eq, c.header_eq, c.file_eq⟩
 
-/-! ### partial: what is covered by correspondence testing only
+/-! ### failed writes: `serialize` into a sink that fails after any number of bytes
 
-The truncation law of the composite structures (`sparseC`, `rlC`, `wmCoreC`, `wmC`), formerly listed here, is
-proven above (`truncated_composite_structures` and the builder-level corollaries).
+The sink model is Model/Sink (`Sink.write`, `Sink.writeAll`, `Sink.serializeTo`); see the header for what is
+assumed about the Rust code (that `serialize` is a `?`-joined sequence of `write_all` calls on consecutive pieces).
+The statements are generic in the codec, hence hold for every serializable type of the model — integers, pairs,
+vectors, byte vectors, strings, options, raw / integer vectors, supports, bitvectors, sparse / run-length vectors,
+wavelet matrix and core — and need **no** invariant of the value. -/
 
-Full intended statement, failing sink: for every value `x`, every `Write` sink that accepts `b < 8 * size`
-bytes and then returns the error `e`: `x.serialize(sink) = Err(e)`.
-Missing: the model has no sink for `serialize` (`Codec.ser` is the pure element list); only the writers'
-sink is modelled (budget), and for them the law is `raw_writer_never_reports_incomplete_file` /
-`int_writer_never_reports_incomplete_file`.  No theorem is stated for `serialize` with a failing sink — also not
-for the composite structures: it would need a model definition that does not exist.  What the theorems above give
-is the reader's side: whichever strict prefix of the bytes of `x` the sink accepted before failing, loading the
-resulting file is refused with `eof`. -/
+/-- `write_all` on the budgeted sink: all of the buffer or the sink's error, and in the second case exactly the
+first `budget` bytes have been written (the partial write) -/
+theorem write_all_all_or_error (s : Sink) (buf : List UInt8) :
+    (buf.length ≤ s.budget →
+      s.writeAll buf = (⟨s.content ++ buf, s.budget - buf.length, s.e⟩, ok ())) ∧
+    (s.budget < buf.length →
+      s.writeAll buf = (⟨s.content ++ buf.take s.budget, 0, s.e⟩, fault (.err s.e))) := by
+  rw [LoadWF.writeAll_eq]
+  exact ⟨fun h => by rw [if_pos h], fun h => by rw [if_neg (by omega)]⟩
+
+/-- **when the output sink fails after any number of bytes, serialization returns that error**: for every codec
+`c`, value `x`, partition `chunks` of the bytes of `c.ser x`, byte budget `b` and sink error `e` —
+`b ≥ 8*size` → `Ok(())`, the sink holds exactly the bytes (and `b - 8*size` budget is left);
+`b < 8*size` → the result is `Err(e)`, never `Ok`, and the sink holds exactly the first `b` bytes: a strict prefix -/
+theorem serialize_into_failing_sink {α} (c : Codec α) (x : α) (chunks : List (List UInt8))
+    (hchunks : chunks.flatten = toBytes (c.ser x)) (b : Nat) (e : ErrKind) :
+    (8 * c.size x ≤ b →
+      Sink.serializeTo (Sink.new b e) chunks = (⟨toBytes (c.ser x), b - 8 * c.size x, e⟩, ok ())) ∧
+    (b < 8 * c.size x →
+      (Sink.serializeTo (Sink.new b e) chunks).2 = fault (.err e) ∧
+      (Sink.serializeTo (Sink.new b e) chunks).1.content = (toBytes (c.ser x)).take b ∧
+      (Sink.serializeTo (Sink.new b e) chunks).1.content.length = b ∧
+      (Sink.serializeTo (Sink.new b e) chunks).1.content.length < (toBytes (c.ser x)).length) :=
+  LoadWF.serialize_to_budget_sink c x chunks hchunks b e
+
+/-- … in particular the outcome does not depend on how the implementation cuts its output into `write_all` calls -/
+theorem sink_outcome_independent_of_chunking {α} (c : Codec α) (x : α) (chunks chunks' : List (List UInt8))
+    (h : chunks.flatten = toBytes (c.ser x)) (h' : chunks'.flatten = toBytes (c.ser x)) (b : Nat) (e : ErrKind) :
+    Sink.serializeTo (Sink.new b e) chunks = Sink.serializeTo (Sink.new b e) chunks' := by
+  rw [LoadWF.serializeTo_eq, LoadWF.serializeTo_eq, h, h']
+
+/-- … and what a failed serialization left in the sink is refused by the loader with `eof` (for every codec with the
+strong prefix law: all of `all_codecs_report_eof`, `composite_codecs_report_eof`) -/
+theorem failed_serialization_leaves_unloadable_file {α} (c : Codec α) (W : α → Prop) (hc : LawfulP IsEof c W)
+    (x : α) (hx : W x) (chunks : List (List UInt8)) (hchunks : chunks.flatten = toBytes (c.ser x))
+    (b : Nat) (e : ErrKind) (hb : b < 8 * c.size x) :
+    (Sink.serializeTo (Sink.new b e) chunks).2 = fault (.err e) ∧
+    c.load (ofBytes (Sink.serializeTo (Sink.new b e) chunks).1.content) = fault (.err .eof) := by
+  obtain ⟨h1, h2, _, _⟩ := (LoadWF.serialize_to_budget_sink c x chunks hchunks b e).2 hb
+  exact ⟨h1, by rw [h2]; exact pfx_bytes_eof hc x hx b hb⟩
+
+/-- two partitions every serialization has: one `write_all` for the whole output, and one per 8-byte element -/
+theorem whole_and_elementwise_chunkings {α} (c : Codec α) (x : α) :
+    [toBytes (c.ser x)].flatten = toBytes (c.ser x) ∧
+    ((c.ser x).map wordToBytes).flatten = toBytes (c.ser x) :=
+  ⟨by simp, by simp [toBytes, List.flatMap_def]⟩
+
+/-- the coding error the sink model must tell apart: with `write` in place of `write_all` (returned count ignored)
+a short write goes unreported — `Ok(())` with a byte missing — whereas the `write_all` sequence on the same sink
+returns the error -/
+theorem write_instead_of_write_all_is_told_apart :
+    Sink.serializeToWrite (Sink.new 3 .other) [[1, 2], [3, 4]] = (⟨[1, 2, 3], 0, .other⟩, ok ()) ∧
+    Sink.serializeTo (Sink.new 3 .other) [[1, 2], [3, 4]] = (⟨[1, 2, 3], 0, .other⟩, fault (.err .other)) := by
+  decide
+
+/-! ### what is covered by correspondence testing only
+
+The truncation law of the composite structures and the failing-sink law of `serialize`, formerly listed here, are
+proven above.  For the sink law the proof is about the sink protocol (`serializeTo` over any chunking); that the Rust
+`serialize` implementations follow it — `write_all`, consecutive pieces, `?` after every call — is an assumption
+about the code that no theorem covers: it is observed by the `ser sink` requests of the correspondence check on
+every budget for the generated structures (see the header).  Real kernel write failures (`RLIMIT_FSIZE`, full
+disk) are exercised by the check in a child process only. -/
 
 /-! ### non-vacuity -/
 
@@ -399,6 +471,12 @@ example : (RawVec.ofBits [true, false, true]).WF ∧ (RawVec.ofBits [true, false
 example : rawVecC.load (ofBytes ((toBytes (rawVecC.ser (RawVec.ofBits [true, false, true]))).take 11)) =
     fault (.err .eof) :=
   truncated_raw_vector _ (by decide) (by decide) 11 (by decide)
+/-- a three-bit raw vector (24 bytes) written element by element into sinks of budget 24 and 11 -/
+example : Sink.serializeTo (Sink.new 24 .other) ((rawVecC.ser (RawVec.ofBits [true, false, true])).map wordToBytes) =
+      (⟨toBytes (rawVecC.ser (RawVec.ofBits [true, false, true])), 0, .other⟩, ok ()) ∧
+    (Sink.serializeTo (Sink.new 11 .other)
+      ((rawVecC.ser (RawVec.ofBits [true, false, true])).map wordToBytes)).2 = fault (.err .other) := by
+  decide
 example : ∀ p ∈ [RawWriter.Push.bit true, RawWriter.Push.int 5 7], p.valid := by
   intro p hp; simp at hp; rcases hp with rfl | rfl <;> simp [RawWriter.Push.valid]
 
